@@ -85,7 +85,7 @@ def _effects(st):
 def fe_z3cow(R):
     tree = R.tree
     m = tree.mod(FF)
-    fn = tree.func(FF, "FullFrontend._get_solver")
+    fn = util.inline_trivial_helpers(tree.func(FF, "FullFrontend._get_solver"), util.methods_of(tree.cls(FF, "FullFrontend")))
     src = ast.unparse(fn)
     for atom in (REUSE, PENDING, FINAL):
         R.need(atom in src, f"_get_solver no longer tests `{atom}` (anchor moved)")
